@@ -129,13 +129,18 @@ func RunCtx(seed int64, idx int) *Result {
 		return false
 	}
 	fire := func(h, v uint64) { nd.Manual.Fire(nd.ctx, h, v) }
-	// bring the node to the view it leads by firing its timers view by view
-	for v := uint64(0); v < uint64(me); v++ {
+	// bring the node to the view it leads by firing its timers view by view; in half of the cases stop one view below, so
+	// that the votes of the others elect it while it has not timed out of that lower view itself
+	reach := uint64(me)
+	if rng.Intn(2) == 0 {
+		reach = uint64(me) - 1
+	}
+	for v := uint64(0); v < reach; v++ {
 		fire(1, v)
 		nd.Barrier()
 		nd.Witness(4)
 	}
-	if _, v := nd.HV(); v != uint64(me) {
+	if _, v := nd.HV(); v != reach {
 		net.count("inconclusive: node did not reach the view it leads")
 		nd.Cancel()
 		return net.result("ctx", idx, seed, desc)
@@ -168,7 +173,11 @@ func RunCtx(seed int64, idx int) *Result {
 		// 1. a stale trigger (older view) must not cancel the current position's context
 		steps := rng.Intn(3)
 		for s := 0; s < steps; s++ {
-			fire(1, uint64(rng.Intn(me)))
+			sv := uint64(rng.Intn(me))
+			if s == 0 && reach < uint64(me) {
+				sv = reach // its own, now outdated, trigger of the view it was in when the others elected it
+			}
+			fire(1, sv)
 			nd.Barrier()
 			net.count("C15 stale triggers judged")
 			if c.ctx.Err() != nil {
